@@ -29,6 +29,7 @@ VARIANTS = {
 PROGRAMS = {
   'vfh':  (['vfh.c','streams.c'], '-Wl,--wrap=exit'),
   'ench': (['ench.c','scn.c','streams.c'], '-Wl,--wrap=exit'),
+  'pdh':  (['pdh.c','scn.c','streams.c'], '-Wl,--wrap=exit'),
 }
 
 def log(*a):
